@@ -21,6 +21,7 @@ COMPILER_REPLAYS = {
     "u_tmono": ["replay/c07/run.sh"],
     "u_mcall": ["replay/c07/call_instances.sh"],
     "u_link": ["replay/c13/link_error/run.sh"],
+    "u_scope": ["replay/c05/run.sh"],
 }
 
 
